@@ -2,6 +2,7 @@
 from .tinyemitter import Emitter
 from . import formulas
 from .formulas import error as formulaserror
+from .formulas.operators import lone_item
 from .grammarparser.parser import FormulaParser
 from .helper.cell import extract_label, to_label, Cell
 import traceback
@@ -36,12 +37,10 @@ class Parser(Emitter):
         finally:
             formulaserror.forget_tracebacks()
 
-        single = result
-        for _ in range(8):
-            # a one-cell range ([[v]]) or one-item array holding an error is that error: it reaches
-            # the top as the error of the formula, not as a list with an error object inside
-            if isinstance(single, (list, tuple)) and len(single) == 1:
-                single = single[0]
+        # a one-cell range ([[v]]) or one-item array holding an error is that error, however deep it
+        # is nested: it reaches the top as the error of the formula, not as a list with an error
+        # object inside
+        single = lone_item(result)
         if isinstance(single, formulaserror.XLError):
             # report the canonical code (a host may hand in an XLError of its own making)
             error = str(formulaserror.from_message(single))
